@@ -194,6 +194,11 @@ INSTANCES = [
 CLASSIFIED = [
     (L + 'Transpose_Lists', 'size()', 'loop-guard: ragged list of lists'),
     (L + 'Integrate_Gauss_Legendre', 'roots_and_weights[i].size()', 'loop-guard: every row of the rule table holds a root and a weight'),
+    (L + 'Minimization::minimize', 'nfunc', 'give-up: Nelder-Mead evaluation cap'),
+    (L + 'Minimization::minimize', 'EXISTS iteration', 'loop-guard: the points of the simplex have one dimension (ragged table)'),
+    (L + 'Minimization::minimize', 'deltas.size()', 'data-guard: one step size per coordinate of the starting point (mismatched list lengths)'),
+    (L + 'Minimization::minimize', 'deltas.empty()', 'data-guard: one step size per coordinate of the starting point (mismatched list lengths)'),
+    (L + 'Minimization::minimize', 'pp.size()', 'data-guard: a simplex needs two points (tables that are too short)'),
     (L + 'Minimization::minimize', 'empty()', 'data-guard: a simplex without points (tables of length 0)'),
     (L + 'Integrate_MC_Vegas', 'isnan', 'give-up: integral became NaN'),
     (L + 'Matrix::Matrix', 'size() != columns', 'loop-guard: ragged matrix entries'),
@@ -208,7 +213,6 @@ CLASSIFIED = [
     (L + 'Interpolation_2D::Interpolation_2D', 'data_table[i]', 'loop-guard: table order'),
     (L + 'Brent::Minimize', 'true', 'give-up: Brent iteration cap'),
     (L + 'Brent::Minimize', '!(EXISTS iteration', 'give-up: Brent iteration cap'),
-    (L + 'Minimization::minimize', 'nfunc', 'give-up: Nelder-Mead evaluation cap'),
     (L + 'Rejection_Sampling', 'count % 1000', 'give-up: rejection sampling too inefficient'),
     (L + 'Rejection_Sampling', 'PDF(x) < 0.0', 'data-guard: PDF not a non-negative number'),
     (L + 'Rejection_Sampling', 'yMax', 'data-guard: PDF exceeds the envelope'),
